@@ -184,6 +184,9 @@ class Sym:
                 return ("min", self.expr(c.args[0], depth + 1, seen), self.expr(c.args[1], depth + 1, seen))
             if last == "max" and len(c.args) >= 2:
                 return ("max", self.expr(c.args[0], depth + 1, seen), self.expr(c.args[1], depth + 1, seen))
+            if last == "clamp" and len(c.args) >= 3:
+                return ("clamp", self.expr(c.args[0], depth + 1, seen), self.expr(c.args[1], depth + 1, seen),
+                        self.expr(c.args[2], depth + 1, seen))
             if last == "unwrap_or" and len(c.args) >= 2 and a0 is not None:
                 return ("phi", self.canon(local, fields), t,
                         (self.place_expr(a0[0], tuple(place_fields(a0)) + ("0",) + tuple(fields), depth + 1, seen),
@@ -235,6 +238,8 @@ class Sym:
                 return ("neg", self.expr(rv[2], depth + 1, seen))
             return ("?", rv[1])
         if k == "agg":
+            if rv[1][0] == "adt" and rv[1][2] == "None" and fields:
+                return ("none",)            # the payload of a None: no value flows from here
             idx = cidx
             if idx is None and fields:
                 try:
@@ -336,7 +341,7 @@ def _sub(e):
     return [x for x in e[1:] if isinstance(x, tuple) and x and isinstance(x[0], str) and x[0] in TAGS]
 
 
-TAGS = {"K", "L", "B", "T", "lt", "cast", "add", "sub", "neg", "mul", "min", "max", "phi", "?"}
+TAGS = {"K", "L", "B", "T", "lt", "cast", "add", "sub", "neg", "mul", "min", "max", "clamp", "phi", "none", "?"}
 
 
 def leaves_of(e, out=None):
@@ -429,6 +434,8 @@ class Bounds:
         tag = e[0]
         if tag == "K":
             r = abs(e[1])
+        elif tag == "none":
+            r = 0
         elif tag == "B":
             r = e[1]
         elif tag == "T":
@@ -457,6 +464,8 @@ class Bounds:
             r = min(self.mag(e[1]), self.mag(e[2])) if nonneg(e[1]) and nonneg(e[2]) else INF
         elif tag == "max":
             r = max(self.mag(e[1]), self.mag(e[2]))
+        elif tag == "clamp":
+            r = max(self.mag(e[2]), self.mag(e[3]))
         elif tag == "phi":
             # a mutable / branch-assigned local: the largest of its definitions; a definition that mentions the local
             # itself (x += k outside a loop) is evaluated once over the other definitions
@@ -690,6 +699,16 @@ def lower_nonzero(opn, side, const, key_is_lhs):
            (op == "lt" and const <= 1 and side == "false") or (op == "le" and const <= 0 and side == "false")
 
 
+def lower_nonneg(opn, side, const, key_is_lhs):
+    """does the guard establish key >= 0 on this side"""
+    op = opn.lower()
+    if not key_is_lhs:
+        op = {"lt": "gt", "le": "ge", "gt": "lt", "ge": "le"}.get(op, op)
+    return (op == "ge" and const >= 0 and side == "true") or (op == "gt" and const >= -1 and side == "true") or \
+           (op == "lt" and const <= 0 and side == "false") or (op == "le" and const <= -1 and side == "false") or \
+           (op == "eq" and const >= 0 and side == "true")
+
+
 def _const_bound(e):
     """the value of a constant comparison operand; a u8-typed operand counts as 255 (its largest value)"""
     x = e
@@ -753,6 +772,7 @@ class FnBounds:
         expr_ub = {}
         sums = []
         nonzero = set()
+        nonneg_keys = set()
         removed = assume_at(self.cx, self.fn, self.cfg, site_bb)
         cfg = PrunedCfg(self.cfg, removed) if removed else self.cfg
         for (gb, dest, opn, le, re_, cty) in self.gs:
@@ -769,6 +789,8 @@ class FnBounds:
                     continue
                 if lower_nonzero(opn, side, c, is_lhs):
                     nonzero.add(k_e[1] if k_e[0] == "L" else strip_phi(k_e))
+                if lower_nonneg(opn, side, c, is_lhs):
+                    nonneg_keys.add(strip_phi(k_e))
                 ub = upper_from_guard(opn, side, c, is_lhs)
                 if ub is None or (cty not in UNSIGNED and not nonneg(k_e)):
                     continue      # an upper bound of a signed value says nothing about its magnitude
@@ -794,6 +816,7 @@ class FnBounds:
                     if a0 is not None:
                         nonzero.add("len(" + self.sym.canon(a0[0], place_fields(a0)) + ")")
         b = Bounds(leaf_ub, expr_ub, sums, nonzero, self.loop_blocks)
+        b.nonneg_keys = nonneg_keys
         b.suffix_ub = getattr(self, "suffix_ub", {})
         self._cache[key] = b
         return b
@@ -980,6 +1003,8 @@ def _short(e):
         return f"{_short(e[1])}{s}{_short(e[2])}"
     if tag == "neg":
         return "-(" + _short(e[1]) + ")"
+    if tag == "clamp":
+        return f"clamp({_short(e[1])},{_short(e[2])},{_short(e[3])})"
     return "?"
 
 
@@ -1673,6 +1698,8 @@ def _alternatives(e, out=None, depth=0):
             _alternatives(x, out, depth + 1)
     elif e[0] == "cast":
         _alternatives(e[1], out, depth + 1)
+    elif e[0] == "none":
+        pass
     else:
         out.append(e)
     return out
@@ -1839,6 +1866,149 @@ def rule_stale_index(cx, tier):
                           f"`{guard_call.short.rsplit('::', 2)[-2]}::{guard_call.short.rsplit('::', 1)[-1]}()[i]` inside a "
                           f"loop that runs user code: a callback that shrinks the container makes the next index panic "
                           f"('index out of bounds')", fn.file, c.line))
-    r.analysed = {"loops_with_reentrant_calls": n_loops, "panicking_index_sites_in_them": n_idx}
+    # ---- positional map access with a position that was looked up before user code ran
+    POSITIONAL = ("get_index_mut", "get_index", "swap_remove_index", "shift_remove_index", "swap_indices", "move_index",
+                  "get_index_entry", "shift_insert", "insert_before")
+    LOOKUPS = ("index", "get_index_of", "get_full", "get_full_mut", "insert_full", "position")
+    n_pos = 0
+    for fn in F.fns.values():
+        if fn.derived or fn.crate.uname != "koto_runtime":
+            continue
+        calls = list(fn.calls())
+        re_bbs = {c.bb for c in calls if (c.short or c.pretty or "").rsplit("::", 1)[-1] in REENTRANT}
+        pos = [c for c in calls if (c.pretty or c.short or "").rsplit("::", 1)[-1] in POSITIONAL and len(c.args) >= 2
+               and ("IndexMap" in fn.crate.tstr(c.arg_ty(0)) or "ValueMap" in fn.crate.tstr(c.arg_ty(0)))]
+        if not pos:
+            continue
+        cfg = cx.cfg(fn)
+        du = cx.du(fn)
+        label = cx.label(fn)
+        for c in pos:
+            n_pos += 1
+            r.instances += 1
+            stale = None
+            sym = Sym(cx, fn)
+            for a in c.args[1:]:
+                if a[0] == "k":
+                    continue
+                names = leaves_of(sym.expr(a)) | _phi_names(sym.expr(a))
+                looked = {n.split("(", 1)[0] for n in names if n.split("(", 1)[0] in LOOKUPS and "(" in n}
+                if not looked:
+                    continue
+                r.nontrivial += 1
+                for look in calls:
+                    if (look.pretty or look.short or "").rsplit("::", 1)[-1] not in looked:
+                        continue
+                    if not (look.bb == c.bb or c.bb in cfg.reachable_after(look.bb)):
+                        continue
+                    between = [b for b in re_bbs if b in cfg.reachable_after(look.bb) and c.bb in cfg.reachable_after(b)]
+                    if between:
+                        stale = (look, between[0])
+            r.sample({"fn": label, "line": c.line, "positional_op": (c.pretty or c.short).rsplit("::", 1)[-1],
+                      "position_looked_up_before_user_code": stale is not None})
+            if stale is not None:
+                look, b = stale
+                r.add(Finding("R-STALE-INDEX", label, "map-position:" + (c.pretty or c.short).rsplit("::", 1)[-1],
+                              f"the map is addressed by a position (`{(c.pretty or c.short).rsplit('::', 1)[-1]}`) that was "
+                              f"looked up at line {look.line}, before user code ran (line {line_of_bb(fn, b)}): a callback that "
+                              f"inserts into or removes from the map moves entries, so the position addresses another "
+                              f"key's entry", fn.file, c.line))
+    r.analysed = {"loops_with_reentrant_calls": n_loops, "panicking_index_sites_in_them": n_idx,
+                  "positional_map_operations": n_pos}
     r.floor("loops with re-entrant calls in koto_runtime", n_loops, 20)
+    r.floor("positional IndexMap operations in koto_runtime", n_pos, 3)
+    return r
+
+
+def line_of_bb(fn, bb):
+    from ..mir import line_of
+    return line_of(fn, bb)
+
+
+# ---------------------------------------------------------------------------------------------
+# R-SIGN-INDEX (C06): a signed script value becomes an index / size only after a lower bound of zero
+
+SIGNED_T = {"i8", "i16", "i32", "i64", "isize", "i128"}
+
+REVIEWED_SIGN = {
+    ("koto_runtime::KotoVm::unpack_packed_arguments", "usize"):
+        "first_arg_index + register + offset: the offset is minus the number of args consumed by empty packed args that "
+        "precede this one, each of which occupied one of the registers counted in the sum",
+    ("koto_runtime::<StepToI64Iterator as Iterator>::size_hint", "usize"):
+        "steps_to_target is the quotient computed by the constructor from a difference and a step of the same sign "
+        "(the constructor's own arithmetic is the R-ARITH known finding)",
+}
+
+
+def provably_nonneg(e, bnd, depth=0):
+    tag = e[0]
+    if depth > 12:
+        return False
+    if strip_phi(e) in getattr(bnd, "nonneg_keys", ()):
+        return True
+    if tag == "K":
+        return e[1] >= 0
+    if tag in ("B", "T", "lt"):
+        return True
+    if tag == "L":
+        return e[2] in UNSIGNED or e[1].startswith(("len(", "idx(", "count("))
+    if tag == "cast":
+        return e[3] in UNSIGNED or provably_nonneg(e[1], bnd, depth + 1)
+    if tag in ("add", "mul"):
+        return provably_nonneg(e[1], bnd, depth + 1) and provably_nonneg(e[2], bnd, depth + 1)
+    if tag == "min":
+        return provably_nonneg(e[1], bnd, depth + 1) and provably_nonneg(e[2], bnd, depth + 1)
+    if tag == "max":
+        return provably_nonneg(e[1], bnd, depth + 1) or provably_nonneg(e[2], bnd, depth + 1)
+    if tag == "clamp":
+        return provably_nonneg(e[2], bnd, depth + 1)
+    if tag == "sub":
+        a, b = e[1], e[2]
+        # max(x, y) - y  and  max(x, y) - x
+        if a[0] == "max" and (strip_phi(a[1]) == strip_phi(b) or strip_phi(a[2]) == strip_phi(b)):
+            return True
+        return False
+    if tag == "phi":
+        return all(provably_nonneg(x, bnd, depth + 1) for x in e[3])
+    return False
+
+
+def rule_sign_index(cx, tier):
+    r = RuleResult("R-SIGN-INDEX", "a signed integer that can come from a script (i64 / isize) is cast to `usize` -- an "
+                                   "index, a length, a range bound -- only when it is provably non-negative: clamped or "
+                                   "`max`ed with a non-negative lower limit, or on the non-negative edge of a comparison with "
+                                   "zero; a negative value wraps to a huge index and the slice / index operation panics")
+    F = cx.F
+    n = 0
+    for fn in F.fns.values():
+        if fn.derived or fn.crate.uname != "koto_runtime":
+            continue
+        fb = None
+        for b in fn.blocks:
+            if b.cleanup:
+                continue
+            for st in b.stmts:
+                if st[0] != "a" or st[2][0] != "cast" or st[2][1] != "IntToInt" or st[2][2][0] == "k":
+                    continue
+                dt, stt = fn.crate.tstr(st[2][3]), fn.crate.tstr(st[2][4])
+                if dt != "usize" or stt not in SIGNED_T:
+                    continue
+                n += 1
+                r.instances += 1
+                r.nontrivial += 1
+                fb = fb or FnBounds(cx, fn)
+                e = fb.sym.expr(st[2][2])
+                bnd = fb.at(b.idx)
+                ok = provably_nonneg(e, bnd)
+                why = "non-negative by construction / guard" if ok else "no lower bound of zero"
+                if not ok and (fn.qual, dt) in REVIEWED_SIGN:
+                    ok, why = True, "reviewed: " + REVIEWED_SIGN[(fn.qual, dt)][:80]
+                line = loc_line(st[3]) if len(st) > 3 else fn.line
+                r.sample({"fn": cx.label(fn), "line": line, "value": _short(e)[:60], "from": stt, "ok": ok, "why": why})
+                if not ok:
+                    r.add(Finding("R-SIGN-INDEX", cx.label(fn), f"{stt}->usize:{_short(e)[:60]}",
+                                  f"`{_short(e)[:80]} as usize` without a lower bound of zero: a negative value becomes an "
+                                  f"index near usize::MAX and the slice / index operation that uses it panics", fn.file, line))
+    r.analysed = {"signed_to_usize_casts": n}
+    r.floor("signed -> usize casts in koto_runtime", n, 4)
     return r
